@@ -672,6 +672,7 @@ class Extract:
         self.maps_each = []
         self.maps_re = []
         self.lift_anchor = None
+        self.lift_anchor_nth = None
         self.contract = []
         self.loops = {}
         self.loop_iter = {}
@@ -822,6 +823,10 @@ def parse_template(path):
             elif key.startswith('lift-closure '):
                 m = re.match(r'lift-closure (\d+) as (.*)$', d)
                 cur.lift = (int(m.group(1)), m.group(2))
+            elif re.match(r'lift-anchor\[\d+\]$', key):
+                # k-th occurrence of the literal (for literals that are not unique in the function)
+                cur.lift_anchor = val
+                cur.lift_anchor_nth = int(key[len('lift-anchor['):-1])
             elif key == 'lift-anchor':
                 # the lifted closure is the one whose argument position follows this literal (e.g. the match arm it belongs to);
                 # overrides the ordinal of lift-closure when closures are inserted or removed before it
@@ -928,6 +933,17 @@ def render_extract(ex, vac=False, strip_proof=False):
         body = rule_R5(body, log)
     if 'R4' in ex.rules:
         body = rule_R4(body, log)
+    if 'R12' in ex.rules:
+        # R12 mut-self: `fn f(mut self, ..) { BODY }` -> `fn f(self, ..) { let mut __self = self; BODY[self := __self] }`
+        # (Verus does not support a `mut self` parameter; rebinding a by-value parameter mutably is the same function)
+        header, n_ = re.subn(r'\(\s*mut\s+self\b', '(self', header, count=1)
+        if n_ != 1:
+            raise Undecided('R12: no `mut self` parameter')
+        toks_ = tokenize(body)
+        body = ''.join(('__self' if (k_ == 'id' and t_ == 'self') else t_) for (k_, t_, _, _) in toks_)
+        bo_ = body.index('{')
+        body = body[:bo_ + 1] + ' let mut __self = self;' + body[bo_ + 1:]
+        log.append({'rule': 'R12', 'note': '`mut self` parameter rebound as `let mut __self = self;`, `self` renamed to `__self` in the body'})
     if 'R11' in ex.rules:
         body = rule_R11(body, log)
     if 'R10' in ex.rules:
@@ -964,9 +980,14 @@ def render_extract(ex, vac=False, strip_proof=False):
         if anchor:
             # first closure that starts after the (unique) anchor literal
             src_ = join(toks)
-            if src_.count(anchor) != 1:
+            nth_ = getattr(ex, 'lift_anchor_nth', None)
+            if nth_ is None and src_.count(anchor) != 1:
                 raise Undecided('lift-anchor: literal %r occurs %d times' % (anchor, src_.count(anchor)))
-            apos = src_.index(anchor)
+            if nth_ is not None and src_.count(anchor) < nth_:
+                raise Undecided('lift-anchor[%d]: literal %r occurs %d times' % (nth_, anchor, src_.count(anchor)))
+            apos = -1
+            for _k in range(nth_ or 1):
+                apos = src_.index(anchor, apos + 1)
             off = 0
             starts = []
             for t_ in toks:
